@@ -30,7 +30,7 @@ RULE = ("seeded histories (quick: 40 histories x <= 10 steps, thorough: 500 x <=
         "already holds entries written by other implementations (CRLF, lone CR, extra keys, no final newline); after every step the listing is "
         "compared with Effects.bagLines of the on-disk state, the step's effect with Effects.check (which entries may disappear) "
         "and the transition with the model's")
-NAMES = [b"a", b"b", b"a b", b"doc.txt", b"caf\xc3\xa9", b"x%y", b"new\nline", b"d1", b"...", b"....", b"x.trashinfo"]
+NAMES = [b"a", b"b", b"a b", b"doc.txt", b"caf\xc3\xa9", b"cafe\xcc\x81", "\u212bngstro\u0308m".encode(), b"x%y", b"new\nline", b"d1", b"...", b"....", b"x.trashinfo"]
 
 
 def _text(raw):
